@@ -5,5 +5,5 @@ CONSTANTS
   UaVals = {0, 1, 3}
   PvVals = {0, 1, 3}
   ChpVals = {0, 2}
-INVARIANTS Check
+INVARIANTS Check CheckK CheckPrio CheckRer
 CHECK_DEADLOCK FALSE
